@@ -68,7 +68,8 @@ _MOLAR = {"kmol": "kM", "mol": "M", "dmol": "dM", "cmol": "cM", "mmol": "mM", "Â
 def unit_string(sys3, dim3, style=0):
     """A unit string for (sys3, dim3) in the library's grammar."""
     parts = []
-    derived = style >= 2          # styles 2 / 3: styles 0 / 1 with litre- and molar-family symbols where the units allow them
+    derived = style in (2, 3)     # styles 2 / 3: styles 0 / 1 with litre- and molar-family symbols where the units allow them
+    slashneg = style in (4, 5)    # styles 4 / 5: styles 0 / 1 with a later factor of positive exponent e written /sym-e (a/b-1 is a.b)
     style = style % 2
     sp, tm, qt = sys3
     a, b, c = dim3
@@ -89,7 +90,9 @@ def unit_string(sys3, dim3, style=0):
         if n == 0:
             out += sym + ("" if e == 1 else str(e))
         else:
-            if style == 1 and e < 0:
+            if slashneg and e > 0:
+                out += "/" + sym + str(-e)
+            elif style == 1 and e < 0:
                 out += "/" + sym + ("" if e == -1 else str(-e))
             else:
                 out += "." + sym + ("" if e == 1 else str(e))
